@@ -283,10 +283,39 @@ class TRaisingClass:
         raise RuntimeError("inspection failed")
 
 
+class TStrKey(str):
+    """A str subclass with its own hashing / equality / text (a case-insensitive header name, an enum-like key)."""
+
+    def __hash__(self):
+        note("__hash__")
+        return str.__hash__(self)
+
+    def __eq__(self, other):
+        note("__eq__")
+        return str.__eq__(self, other)
+
+    def __str__(self):
+        note("__str__")
+        return str.__str__(self)
+
+    def __repr__(self):
+        note("__repr__")
+        return str.__repr__(self)
+
+    def __len__(self):
+        note("__len__")
+        return str.__len__(self)
+
+    def isidentifier(self):
+        note("isidentifier")
+        return str.isidentifier(self)
+
+
 MAKERS = {
     "getattribute": TGetAttribute, "getattr": TGetAttr, "class_prop": TClassProp, "descriptor": TDescriptor,
     "lazy_property": TLazyProperty, "list_sub": lambda: TList([1, 2]), "dict_sub": lambda: TDict(a=1),
     "set_sub": lambda: TSet([1]), "tuple_sub": lambda: TTuple((1, 2)),
     "defaultdict_sub": lambda: TDefaultDict(int, a=1), "getattr_raises": TGetAttrRaises, "hash_eq": THashEq, "bool": TBool,
     "repr": TRepr, "meta_class": make_meta_class, "meta_instance": make_meta_instance,
+    "str_sub_key": lambda: TStrKey("name"),
 }
